@@ -243,7 +243,8 @@ def Res.eqv : Res → Res → Bool
 
 def Obs.eqv (a b : Obs) : Bool :=
   a.result.eqv b.result && a.argUnchanged == b.argUnchanged && a.roundtrip == b.roundtrip &&
-  a.faultFired == b.faultFired && a.stable == b.stable
+  a.faultFired == b.faultFired && a.stable == b.stable && a.filterCalls == b.filterCalls &&
+  a.serCalls == b.serCalls
 
 instance : BEq Obs := ⟨Obs.eqv⟩
 
@@ -378,8 +379,9 @@ def Res.isExc : Res → Bool
       arguments — not on what was converted before, nor on when a class became an attrs class);
     * an exception raised by a callback (value_serializer, filter, dict_factory, tuple_factory) propagates:
       it is not swallowed and no partial result is returned;
-    * otherwise the result is the promised shape, built. -/
-def spec (c : Case) (o : Obs) : Bool :=
+    * otherwise the result is the promised shape, built;
+    * the filter and the serializer are consulted once per field occurrence (no memo across equal values). -/
+def specMain (c : Case) (o : Obs) : Bool :=
   o.argUnchanged && o.stable &&
   (if o.faultFired then o.result.eqv (.exc "fault")
    else match demanded c with
@@ -387,6 +389,14 @@ def spec (c : Case) (o : Obs) : Bool :=
      | .value v => o.result.eqv (.ok v)
      | .raises => o.result.isExc) &&
   (if roundtripApplies c then o.roundtrip == some true else true)
+
+/-- a call that returned consulted the filter / the serializer exactly once per occurrence -/
+def specCalls (c : Case) (o : Obs) : Bool :=
+  match o.result with
+  | .ok _ => o.filterCalls == expectedCalls c .filter && o.serCalls == expectedCalls c .ser
+  | .exc _ => true
+
+def spec (c : Case) (o : Obs) : Bool := specMain c o && specCalls c o
 
 def check : Check Case Obs := { model := model, spec := spec, wf := wf, known := known }
 
